@@ -36,7 +36,7 @@ int MatrixMul::compare(const Basic &o) const
 {
     SYMENGINE_ASSERT(is_a<MatrixMul>(o));
     const MatrixMul &other = down_cast<const MatrixMul &>(o);
-    int cmp_scalar = scalar_->compare(*other.scalar_);
+    int cmp_scalar = scalar_->__cmp__(*other.scalar_);
     if (cmp_scalar != 0) {
         return cmp_scalar;
     }
